@@ -187,6 +187,48 @@ theorem fft_dx_axis0_iff_square (dx N0 N1 lam efl : K) (hdx : dx ≠ 0) (hN0 : N
 example : (1 : ℚ) / 9 ≠ (1/2) * focusDx (1/2 : ℚ) 9 12 (1/2) 100 / ((1/2) * 100) := by
   simp only [focusDx, pupilToPsf, Model.C03.qForSampling, Model.C03.pupilToPsf, Model.C03.psfToPupil, Model.C03.axisQ, Model.C03.shiftSamples, Model.C03.focusDx]; norm_num
 
+/-- chain of reported spacings: `Wavefront.focus(efl, Q)` followed by `unfocus(efl, 1)` (and the other way round) reports
+the spacing it started from, for EVERY padded shape, as translated from the source (both read the same `shape[k]`) -/
+theorem gen_fft_chain_dx (dx N0 N1 lam efl : K) (hdx : dx ≠ 0) (hN : N1 ≠ 0) (hl : lam ≠ 0) (hf : efl ≠ 0) :
+    unfocusDx (focusDx dx N0 N1 lam efl) N0 N1 lam efl = dx ∧
+    focusDx (unfocusDx dx N0 N1 lam efl) N0 N1 lam efl = dx := by
+  constructor <;>
+    simp only [focusDx, unfocusDx, pupilToPsf, psfToPupil, Model.C03.pupilToPsf, Model.C03.psfToPupil, Model.C03.focusDx] <;>
+    field_simp
+
+/-- the spacing the FFT route REPORTS is ACCEPTED by both fixed-sampling routes as the same physical spacing: requested
+as `output_dx`, it makes the generated kernel constant of each axis `1/(s_a Q_a)` equal to `1/N₁` (`N₁` the padded length the
+FFT route read its spacing from), i.e. the fixed-sampling kernel is the FFT kernel of that length -/
+theorem fixed_sampling_accepts_fft_spacing (s0 s1 M0 M1 N0 N1 dx z lam sh0 sh1 : K) (h0 : s0 ≠ 0) (h1 : s1 ≠ 0)
+    (hdx : dx ≠ 0) (hz : z ≠ 0) (hl : lam ≠ 0) (hN : N1 ≠ 0) :
+    1 / (s0 * ffsQ0 s0 s1 M0 M1 dx z lam (focusDx dx N0 N1 lam z) sh0 sh1) = 1 / N1 ∧
+    1 / (s1 * ffsQ1 s0 s1 M0 M1 dx z lam (focusDx dx N0 N1 lam z) sh0 sh1) = 1 / N1 ∧
+    1 / (s0 * ufsQ0 s0 s1 M0 M1 dx z lam (unfocusDx dx N0 N1 lam z) sh0 sh1) = 1 / N1 ∧
+    1 / (s1 * ufsQ1 s0 s1 M0 M1 dx z lam (unfocusDx dx N0 N1 lam z) sh0 sh1) = 1 / N1 := by
+  refine ⟨?_, ?_, ?_, ?_⟩ <;>
+    simp only [ffsQ0, ffsQ1, ufsQ0, ufsQ1, focusDx, unfocusDx, qForSampling, pupilToPsf, psfToPupil, Model.C03.qForSampling,
+      Model.C03.pupilToPsf, Model.C03.psfToPupil, Model.C03.axisQ, Model.C03.focusDx] <;>
+    field_simp
+/-- non-vacuity (exact rationals): a 6 × 9 pupil padded to 12 × 18: reported 50/9, back to 1/2; requested as `output_dx` it gives
+`Q₁ = 18/9`, `Q₀ = 18/6` -/
+example : focusDx (1/2 : ℚ) 12 18 (1/2) 100 = 50 / 9 ∧ unfocusDx (50/9 : ℚ) 12 18 (1/2) 100 = 1 / 2 ∧
+    ffsQ1 (6 : ℚ) 9 12 18 (1/2) 100 (1/2) (50/9) 0 0 = 2 ∧ ffsQ0 (6 : ℚ) 9 12 18 (1/2) 100 (1/2) (50/9) 0 0 = 3 := by
+  refine ⟨?_, ?_, ?_, ?_⟩ <;>
+    norm_num [ffsQ0, ffsQ1, focusDx, unfocusDx, qForSampling, pupilToPsf, psfToPupil, Model.C03.qForSampling,
+      Model.C03.pupilToPsf, Model.C03.psfToPupil, Model.C03.axisQ, Model.C03.focusDx]
+
+/-- `make_xy_grid` / `RichData.x,.y` as ARITHMETIC translated from the source: without a `diameter` the step is the `dx` given, with
+one it is `diameter / max(shape)`; a sample whose `fftrange` value is `c` gets the coordinate `c·step`; `.x` takes its length from
+`shape[1]` and varies along array axis 1, `.y` takes its length from `shape[0]` and varies along axis 0 (a swapped unpacking, a
+`meshgrid(y, x)`, `indexing='ij'`, a `dx/2` or a `1/dx` all make this fail) -/
+theorem gen_xy_grid (c dx D smax : K) :
+    xyGridStep dx 0 smax = dx ∧ (D ≠ 0 → xyGridStep dx D smax = D / smax) ∧ xyGridCoord c dx = c * dx ∧
+    richXLenFromShapeIndex = 1 ∧ richXVariesAlongAxis = 1 ∧ richYLenFromShapeIndex = 0 ∧ richYVariesAlongAxis = 0 := by
+  refine ⟨?_, ?_, ?_, by decide, by decide, by decide, by decide⟩
+  · simp [xyGridStep, ofInt_eq]
+  · intro h; simp [xyGridStep, ofInt_eq, h]
+  · first | (simp only [xyGridCoord]; done) | (simp only [xyGridCoord]; ring)
+
 end scalar
 
 section fourier
@@ -492,6 +534,14 @@ theorem fixedSampling_at_reported_coordinates (e : R → V) (he : ∀ a b, e (a 
   rw [reported_coordinate, reported_coordinate]
   exact fixedSampling_samples_F2 e he ofR sqrt m n M N dx z lam dxo shx shy f k l hm hn hdx hz hl hd
 
+/-- the coordinate `RichData.x/.y` report, as written in the source (`make_xy_grid` called with the object's `dx` and no diameter:
+`xyGridCoord (fftrange(N)[l]) (xyGridStep dx 0 ·)`, all three translated), is `(l - N//2)·dx` -/
+theorem reported_coordinate_as_written (N l : Nat) (dx smax : R) :
+    xyGridCoord (((gridLo (N : Int) + (l : Int) : Int) : R)) (xyGridStep dx 0 smax) = (coord N l : R) * dx := by
+  rw [(gen_xy_grid (((gridLo (N : Int) + (l : Int) : Int) : R)) dx 0 smax).1,
+    (gen_xy_grid (((gridLo (N : Int) + (l : Int) : Int) : R)) dx 0 smax).2.2.1]
+  exact reported_coordinate N l dx
+
 end coordinates
 
 section engine
@@ -697,6 +747,117 @@ theorem fft_route_2d_samples_F2 (e : R → V) (he : C01.IsChar e) (nrm : R → V
   exact h1 n N' _ _ l hN (by simp only [Generated.C03.focusDx, Generated.C03.pupilToPsf, Model.C03.focusDx, Model.C03.pupilToPsf]; field_simp)
 
 end fftroute
+
+section routes
+variable {R V : Type} [Field R] [CharZero R] [Field V] [CharZero V] [DecidableEq R]
+open Model.C03
+
+/-- the routes agree at the same physical place (one axis, any per-axis `Q` / sample shift satisfying the two translated
+obligations): whenever output sample `l'` of a fixed-sampling call at ANY requested spacing `dx_out` and shift, and sample `l` of
+the FFT route (as written: pad, rotate, DFT, rotate back) with its reported spacing, have the same physical coordinate
+`(l' - M//2)·dx_out - shift = (l - N//2)·dx_rep`, the two array elements are equal up to the unit phase of the shift -/
+theorem routes_agree_at_same_place (e : R → V) (he : ∀ a b, e (a + b) = e a * e b) (hint : ∀ z : ℤ, e (z : R) = 1)
+    (n N M : Nat) (hnN : n ≤ N) (Q s dx z lam dxo sh N0 : R) (f : Nat → V) (l l' : Nat) (hl : l < N)
+    (hQ : 1 / ((n : R) * Q) = dx * dxo / (lam * z)) (hs : s = sh / dxo) (hd : dxo ≠ 0) (hdx : dx ≠ 0) (hlam : lam ≠ 0)
+    (hz : z ≠ 0) (hplace : coord M l' * dxo - sh = coord N l * focusDx dx N0 (N : R) lam z) :
+    mdft1 e n M (1 / ((n : R) * Q)) s f l'
+      = e (-(s * (coord M l' - s) * (1 / ((n : R) * Q)))) * fftRoute1 e N (padded n N f) l := by
+  rw [axis_samples_F e he n M Q s dx z lam dxo sh f l' hQ hs hd, hplace,
+    fft_route_end_to_end e he hint n N hnN dx lam z N0 f l hl hdx hlam hz]
+
+/-- the same over the GENERATED glue of `focus_fixed_sampling` (x axis: `ffsQ1`, `ffsShift0`; y axis: `ffsQ0`, `ffsShift1`),
+each axis against the FFT route of that axis's own padded length -/
+theorem ffs_agrees_with_fft_route (e : R → V) (he : ∀ a b, e (a + b) = e a * e b) (hint : ∀ z : ℤ, e (z : R) = 1)
+    (m n M N M' N' : Nat) (hmM : m ≤ M') (hnN : n ≤ N') (dx z lam dxo sh0 sh1 N0 : R) (f g : Nat → V) (k k' l l' : Nat)
+    (hk : k < M') (hl : l < N') (hm : (m : R) ≠ 0) (hn : (n : R) ≠ 0) (hdx : dx ≠ 0) (hz : z ≠ 0) (hlam : lam ≠ 0)
+    (hd : dxo ≠ 0)
+    (hx : coord N l' * dxo - sh0 = coord N' l * focusDx dx N0 (N' : R) lam z)
+    (hy : coord M k' * dxo - sh1 = coord M' k * focusDx dx N0 (M' : R) lam z) :
+    (mdft1 e n N (1 / ((n : R) * ffsQ1 (m : R) n M N dx z lam dxo sh0 sh1)) (ffsShift0 (m : R) n M N dx z lam dxo sh0 sh1) f l'
+      = e (-(ffsShift0 (m : R) n M N dx z lam dxo sh0 sh1 * (coord N l' - ffsShift0 (m : R) n M N dx z lam dxo sh0 sh1)
+            * (1 / ((n : R) * ffsQ1 (m : R) n M N dx z lam dxo sh0 sh1))))
+        * fftRoute1 e N' (padded n N' f) l) ∧
+    (mdft1 e m M (1 / ((m : R) * ffsQ0 (m : R) n M N dx z lam dxo sh0 sh1)) (ffsShift1 (m : R) n M N dx z lam dxo sh0 sh1) g k'
+      = e (-(ffsShift1 (m : R) n M N dx z lam dxo sh0 sh1 * (coord M k' - ffsShift1 (m : R) n M N dx z lam dxo sh0 sh1)
+            * (1 / ((m : R) * ffsQ0 (m : R) n M N dx z lam dxo sh0 sh1))))
+        * fftRoute1 e M' (padded m M' g) k) := by
+  have hQ := ffsQ_axes (m : R) n M N dx z lam dxo sh0 sh1 hm hn hdx hz hlam hd
+  have hS := shift_in_output_samples (m : R) n M N dx z lam dxo sh0 sh1
+  exact ⟨routes_agree_at_same_place e he hint n N' N hnN _ _ dx z lam dxo sh0 N0 f l l' hl hQ.2 hS.1 hd hdx hlam hz hx,
+         routes_agree_at_same_place e he hint m M' M hmM _ _ dx z lam dxo sh1 N0 g k k' hk hQ.1 hS.2.1 hd hdx hlam hz hy⟩
+
+/-- sample for sample: `focus_fixed_sampling` asked for the spacing the FFT route reports, as many samples as the padded axis
+and no shift IS the FFT route (generated `Q` and shift of the x axis; every pupil size `n`, padded size `N ≥ n`, every `l`) -/
+theorem ffs_at_fft_spacing_is_fft_route (e : R → V) (he : ∀ a b, e (a + b) = e a * e b) (hint : ∀ z : ℤ, e (z : R) = 1)
+    (m n M N : Nat) (hnN : n ≤ N) (dx z lam N0 : R) (f : Nat → V) (l : Nat) (hl : l < N)
+    (hm : (m : R) ≠ 0) (hn : (n : R) ≠ 0) (hdx : dx ≠ 0) (hz : z ≠ 0) (hlam : lam ≠ 0) :
+    mdft1 e n N (1 / ((n : R) * ffsQ1 (m : R) n M N dx z lam (focusDx dx N0 (N : R) lam z) 0 0))
+        (ffsShift0 (m : R) n M N dx z lam (focusDx dx N0 (N : R) lam z) 0 0) f l
+      = fftRoute1 e N (padded n N f) l := by
+  have hN : (N : R) ≠ 0 := by exact_mod_cast (show N ≠ 0 by omega)
+  have hd : focusDx dx N0 (N : R) lam z ≠ 0 := by
+    simp only [Generated.C03.focusDx, Generated.C03.pupilToPsf, Model.C03.focusDx, Model.C03.pupilToPsf]
+    first | positivity | (apply div_ne_zero <;> apply mul_ne_zero <;> assumption)
+  have hQ := (ffsQ_axes (m : R) n M N dx z lam (focusDx dx N0 (N : R) lam z) 0 0 hm hn hdx hz hlam hd).2
+  have hS := (shift_in_output_samples (m : R) n M N dx z lam (focusDx dx N0 (N : R) lam z) 0 0).1
+  have h := routes_agree_at_same_place e he hint n N N hnN _ _ dx z lam _ 0 N0 f l l hl hQ hS hd hdx hlam hz (by ring)
+  rw [h, hS]
+  have e0 : e 0 = 1 := by simpa using hint 0
+  simp [e0]
+
+/-- un-focusing direction, sample for sample: `unfocus_fixed_sampling` asked for the pupil spacing the FFT route `unfocus` reports,
+as many samples as the padded axis and no shift IS the FFT route `fftshift(ifft(ifftshift(pad)))` (generated `Q` and shift of the x
+axis, inverse kernel; every focal size `n`, padded size `N ≥ n`, every `l`) -/
+theorem ufs_at_fft_spacing_is_fft_route (e : R → V) (he : ∀ a b, e (a + b) = e a * e b) (hint : ∀ z : ℤ, e (z : R) = 1)
+    (m n M N : Nat) (hnN : n ≤ N) (dx z lam N0 : R) (f : Nat → V) (l : Nat) (hl : l < N)
+    (hm : (m : R) ≠ 0) (hn : (n : R) ≠ 0) (hdx : dx ≠ 0) (hz : z ≠ 0) (hlam : lam ≠ 0) :
+    mdft1 (fun t => e (-t)) n N (1 / ((n : R) * ufsQ1 (m : R) n M N dx z lam (unfocusDx dx N0 (N : R) lam z) 0 0))
+        (ufsShift0 (m : R) n M N dx z lam (unfocusDx dx N0 (N : R) lam z) 0 0) f l
+      = fftRoute1 (fun t => e (-t)) N (padded n N f) l := by
+  have hN : (N : R) ≠ 0 := by exact_mod_cast (show N ≠ 0 by omega)
+  have hfu : unfocusDx dx N0 (N : R) lam z = focusDx dx N0 (N : R) lam z := by
+    rw [(gen_reportedDx dx N0 (N : R) lam z).1, (gen_reportedDx dx N0 (N : R) lam z).2]
+    simp only [Model.C03.focusDx, Model.C03.pupilToPsf, Model.C03.psfToPupil]
+  have hd : focusDx dx N0 (N : R) lam z ≠ 0 := by
+    simp only [Generated.C03.focusDx, Generated.C03.pupilToPsf, Model.C03.focusDx, Model.C03.pupilToPsf]
+    first | positivity | (apply div_ne_zero <;> apply mul_ne_zero <;> assumption)
+  have hint' : ∀ k : ℤ, (fun t => e (-t)) ((k : ℤ) : R) = 1 := by
+    intro k; simpa using hint (-k)
+  rw [hfu]
+  have hQ := (ufsQ_axes (m : R) n M N dx z lam (focusDx dx N0 (N : R) lam z) 0 0 hm hn hdx hz hlam hd).2
+  have hS := (shift_in_output_samples (m : R) n M N dx z lam (focusDx dx N0 (N : R) lam z) 0 0).2.2.1
+  have h := routes_agree_at_same_place (fun t => e (-t)) (inv_character e he) hint' n N N hnN _ _ dx z lam _ 0 N0 f l l hl hQ hS hd
+    hdx hlam hz (by ring)
+  rw [h, hS]
+  have e0 : e 0 = 1 := by simpa using hint 0
+  simp [e0]
+
+/-- the routes agree at the same physical place IN 2-D, norms included: element `[k',l']` of `focus_fixed_sampling` (model
+`fixedSampling`, any requested `dx_out`, no shift) and element `[k,l]` of the FFT route (C01's model of
+`fftshift(fft2(ifftshift(pad2d(x))), 'ortho')` with the pad offset of the current source) whose physical coordinates coincide —
+x through the REPORTED spacing, y through the true axis-0 spacing `λf/(M' dx)` (the reported one iff the padded array is square,
+`fft_dx_axis0_iff_square`) — hold the same value up to the two routes' norms -/
+theorem routes_agree_2d (e : R → V) (he : C01.IsChar e) (nrm : R → V) (ofR : R → V) (sqrt : R → R)
+    (m n M N M' N' : Nat) (hm : m ≤ M') (hn : n ≤ N') (hm0 : (m : R) ≠ 0) (hn0 : (n : R) ≠ 0)
+    (dx lam efl dxo : R) (f : Array (Array V)) (k l k' l' : Nat) (hk : k < M') (hl : l < N')
+    (hdx : dx ≠ 0) (hlam : lam ≠ 0) (hf : efl ≠ 0) (hd : dxo ≠ 0)
+    (hy : coord M k' * dxo = coord M' k * (lam * efl / ((M' : R) * dx)))
+    (hx : coord N l' * dxo = coord N' l * focusDx dx (M' : R) (N' : R) lam efl) :
+    (nrm (1 / (M' : R)) * nrm (1 / (N' : R)))
+        * fixedSampling e ofR sqrt m n M N dx efl lam dxo 0 0 (Model.C01.rd2 f) k' l'
+      = ofR (sqrt (dx * dxo / (lam * efl)) * sqrt (dx * dxo / (lam * efl)))
+        * Model.C01.rd2 (Model.C01.fftRoute2 e nrm (m, n) (M', N') (padLo (m : Int) (M' : Int), padLo (n : Int) (N' : Int)) f) k l := by
+  rw [fixedSampling_samples_F2 e he.add ofR sqrt m n M N dx efl lam dxo 0 0 _ k' l' hm0 hn0 hdx hf hlam hd,
+    fft_route_2d_samples_F2 e he nrm m n M' N' hm hn dx lam efl f k l hk hl hdx hlam hf]
+  simp only [zero_div, zero_mul, neg_zero, he.zero, sub_zero, mul_one, hx, hy]
+  ring
+
+/-- non-vacuity of the coordinate hypotheses of `routes_agree_2d` (exact rationals): on a square 8 × 8 padded array the true axis-0
+spacing and the reported spacing are both 25/2, so `dx_out = 25/2`, `M = M'`, `N = N'`, `k' = k`, `l' = l` satisfies them -/
+example : focusDx (1/2 : ℚ) 8 8 (1/2) 100 = 25 / 2 ∧ (1/2 : ℚ) * 100 / ((8 : ℚ) * (1/2)) = 25 / 2 := by
+  constructor <;> norm_num [Generated.C03.focusDx, Generated.C03.pupilToPsf, Model.C03.pupilToPsf, Model.C03.focusDx]
+
+end routes
 
 section driver
 variable {R V : Type} [Field R] [CharZero R] [Field V] [CharZero V]
